@@ -120,12 +120,41 @@ func (x *runner) runQueryDecK(n int) {
 				continue
 			}
 			q := string(data)
+			var wantMissing []string
+			judged := false
+			if ref := x.env.RefDoc(t, v); ref != nil && x.rng.Intn(2) == 0 {
+				// the same parameters with required fields deleted at any depth inside their values
+				doc := ref.clone()
+				x.env.dropFields(t, doc, x.rng, []int{10, 25, 50}[x.rng.Intn(3)], false)
+				var parts []string
+				ok := true
+				for _, kv := range doc.KVs {
+					s, fine := kv.V.ROR2(true, nil)
+					ok = ok && fine
+					parts = append(parts, kv.K+"="+s)
+				}
+				if ok {
+					q = strings.Join(parts, "&")
+					r.Count("query-dec:nested-deletions")
+					x.env.MissingPaths(t, doc, "", &wantMissing)
+					judged = true
+				}
+			}
 			for k := x.rng.Intn(3); k > 0; k-- {
 				q = x.mutateQuery(q)
+				judged = false
 			}
 			impl := x.b.DecodeQueryFull(rec, q)
 			r.OracleCases++
 			r.Count("query-dec:" + strings.SplitN(impl+" ", " ", 3)[0] + " " + strings.SplitN(impl+"  ", " ", 3)[1][:min(7, len(strings.SplitN(impl+"  ", " ", 3)[1]))])
+			if judged && len(wantMissing) > 0 {
+				// the independently computed set of absent required fields, full paths from the parameter name down
+				if want := missingOutcome(wantMissing); impl != want {
+					r.OracleFail(hx.Case{Sig: "C06 wrong set of missing required fields (query parameters)", Op: "qdec " + rec + " " + hx.Hex([]byte(q)), Impl: impl, Expected: want})
+				}
+			} else if judged && !strings.HasPrefix(impl, "ok ") {
+				r.OracleFail(hx.Case{Sig: "C06 complete query parameters not decoded", Op: "qdec " + rec + " " + hx.Hex([]byte(q)), Impl: impl, Expected: "ok …"})
+			}
 			if strings.HasPrefix(impl, "panic") {
 				r.OracleFail(hx.Case{Sig: "C04 query-parameters reader panicked", Op: "qdec " + rec + " " + hx.Hex([]byte(q)), Impl: impl, Expected: "a value or an error"})
 				continue
